@@ -93,7 +93,14 @@ def _strip_comments(text):
 
 def preprocess(text, defines=None):
     """Return text with directives resolved; line structure is preserved."""
-    macros = dict(defines or {})
+    macros = {}
+    if defines:
+        if isinstance(defines, dict):
+            for k, v in defines.items():
+                macros[k] = v if isinstance(v, tuple) else (None, '' if v is None or v is True else str(v))
+        else:
+            for k in defines:
+                macros[k] = (None, '')
     text = _strip_comments(text)
     lines = text.split('\n')
     out = []
